@@ -113,9 +113,12 @@ pub fn events_of(f: &DFile, paths: &[String]) -> Vec<Ev> {
                     }
                     attrs.push(Attr::simple("affects", &parts.join(",")));
                 }
-                match severity % 3 {
+                match severity % 4 {
                     1 => attrs.push(Attr::simple("severity", "warning")),
                     2 => attrs.push(Attr::simple("severity", "Info")),
+                    // an UNKNOWN severity only matters once the block has a violation to report (C13); a block
+                    // whose links are all satisfied passes with it
+                    3 => attrs.push(Attr::simple("severity", "warn")),
                     _ => {}
                 }
                 if *tag_lines {
@@ -450,6 +453,25 @@ pub fn check(c: &DriftCase, probe: &Probe) -> Verdict {
     if vo.timed_out || vo.panicked() {
         return Verdict::Fail(show("validation run crashed", &vo));
     }
+    // a modified block with an unknown severity AND a stale reference: the run must fail closed (C13), nothing
+    // else is judged for such a case
+    let modified_named0: BTreeSet<(String, String)> = listing.iter().filter(|l| l.modified && l.attrs.contains_key("name")).map(|l| (l.file.clone(), l.attrs["name"].clone())).collect();
+    let unknown_severity_with_violation = listing.iter().filter(|l| l.modified && l.attrs.get("severity").map(String::as_str) == Some("warn")).any(|l| {
+        l.attrs.get("affects").is_some_and(|a| {
+            a.split(',').any(|r| {
+                let (f, n) = r.trim().split_once(':').expect("generated references have a colon");
+                let f = if f.trim().is_empty() { l.file.clone() } else { f.trim().to_string() };
+                !modified_named0.contains(&(f, n.trim().to_string()))
+            })
+        })
+    });
+    if unknown_severity_with_violation {
+        probe.class("unknown-severity-with-violation(fails closed)");
+        if vo.code == Some(0) || parse_diags(&vo.stderr).is_ok_and(|d| !d.is_empty()) || vo.stderr.trim().is_empty() {
+            return Verdict::Fail(show("a modified block with a stale reference and an unknown severity did not make the run fail with an error", &vo));
+        }
+        return Verdict::Pass;
+    }
     let diags = match parse_diags(&vo.stderr) {
         Ok(d) => d,
         Err(e) => return Verdict::Fail(show(&format!("validation run on an accepted diff: {e}"), &vo)),
@@ -588,7 +610,7 @@ fn repair(c: &DriftCase, w: &World, probe: &Probe) -> Verdict {
 
 pub fn file_strategy() -> BoxedStrategy<DFile> {
     let r = (prop_oneof![3 => Just(None), 2 => (0u8..4).prop_map(Some), 1 => Just(Some(255u8))], prop_oneof![5 => 0u8..6, 1 => Just(255u8)]).prop_map(|(file, name)| Ref { file, name });
-    let open = (proptest::option::weighted(0.8, 0u8..6), prop_oneof![2 => Just(vec![]), 2 => proptest::collection::vec(r, 1..4)], any::<u8>(), proptest::bool::weighted(0.15), prop_oneof![3 => Just(0u8), 1 => 0u8..5], proptest::bool::weighted(0.12), prop_oneof![4 => Just(0u8), 1 => 1u8..3])
+    let open = (proptest::option::weighted(0.8, 0u8..6), prop_oneof![2 => Just(vec![]), 2 => proptest::collection::vec(r, 1..4)], any::<u8>(), proptest::bool::weighted(0.15), prop_oneof![3 => Just(0u8), 1 => 0u8..5], proptest::bool::weighted(0.12), prop_oneof![4 => Just(0u8), 1 => 1u8..4])
         .prop_map(|(name, affects, form, multiline, indent, tag_lines, severity)| Item::Open { name, affects, form, multiline, indent, tag_lines, severity });
     let close = (any::<u8>(), prop_oneof![3 => Just(0u8), 1 => 0u8..5]).prop_map(|(form, indent)| Item::Close { form, indent });
     let item = prop_oneof![2 => open, 2 => close, 5 => any::<u16>().prop_map(Item::Code)];
@@ -651,7 +673,7 @@ pub fn small_scope_cases() -> Vec<DriftCase> {
 }
 
 pub fn run(run: &mut Run) {
-    run.rule = "enumerated small scope: every edit script of <= 2 single-line operations at every position of a fixed nine-line Python file with nested, linked blocks under -U0 and -U3 (1 624 cases). random: 1..4 files of random suffixes (root or sub-directories, one with a space, two whose names sort differently by bytes and by path components: `f0/` next to `f0.<ext>`, `src-gen/` next to `src/`), each a balanced list of own-line tag comments (any comment form of the language, 15% multi-line comments, 12% start tags spread over several lines, indentation), blocks named from a pool of 6 (duplicates, unnamed, one name holding a colon) with affects lists of 1..3 references (same file, other file, missing file, missing name, cycles), 20% of them with severity warning / Info (reported, not failing) and code lines; an edit script of 0..8 operations on new-side lines (add k lines, delete k lines at a gap, replace a line incl. tag lines; every third replacement differs in trailing blanks only) from which the old state is derived; file fates modified / renamed / new / untouched / an extra deleted file; in 25% further entries in the same diff (a binary file, an added empty file, a changed file of unknown suffix holding unbalanced tags, a file emptied, a mode-only change, a symbolic link replaced by a regular file); hostile removed lines (`-- x`, `--- a/f`, `@@ -1 +1 @@`, …) in 10%; missing trailing newline in 15% (new state) / 25% (old state); CRLF files in 10%; real git in a generated mode (-U0..10, unstaged/--cached/HEAD/commit-to-commit, 4 diff algorithms, -M). Oracle part 1: flag per block from an independent reader of git's diff (must / must-not / unspecified zones), part 2: affects diagnostics = reference model over the listed flags, exit status; part 3: after touching every linked block the run passes. Non-trivial = a file with >= 2 hunks, a must-modified block with affects and a must-not block.".into();
+    run.rule = "enumerated small scope: every edit script of <= 2 single-line operations at every position of a fixed nine-line Python file with nested, linked blocks under -U0 and -U3 (1 624 cases). random: 1..4 files of random suffixes (root or sub-directories, one with a space, two whose names sort differently by bytes and by path components: `f0/` next to `f0.<ext>`, `src-gen/` next to `src/`), each a balanced list of own-line tag comments (any comment form of the language, 15% multi-line comments, 12% start tags spread over several lines, indentation), blocks named from a pool of 6 (duplicates, unnamed, one name holding a colon) with affects lists of 1..3 references (same file, other file, missing file, missing name, cycles), 20% of them with severity warning / Info (reported, not failing) or the unknown value `warn` (harmless while every link of the block is satisfied, a hard error once it has a stale one) and code lines; an edit script of 0..8 operations on new-side lines (add k lines, delete k lines at a gap, replace a line incl. tag lines; every third replacement differs in trailing blanks only) from which the old state is derived; file fates modified / renamed / new / untouched / an extra deleted file; in 25% further entries in the same diff (a binary file, an added empty file, a changed file of unknown suffix holding unbalanced tags, a file emptied, a mode-only change, a symbolic link replaced by a regular file); hostile removed lines (`-- x`, `--- a/f`, `@@ -1 +1 @@`, …) in 10%; missing trailing newline in 15% (new state) / 25% (old state); CRLF files in 10%; real git in a generated mode (-U0..10, unstaged/--cached/HEAD/commit-to-commit, 4 diff algorithms, -M). Oracle part 1: flag per block from an independent reader of git's diff (must / must-not / unspecified zones), part 2: affects diagnostics = reference model over the listed flags, exit status; part 3: after touching every linked block the run passes. Non-trivial = a file with >= 2 hunks, a must-modified block with affects and a must-not block.".into();
     run.assumptions = vec![
         "file names avoid characters git C-quotes".into(),
         "mixed -/+ groups count through their added lines only (removed lines of a mixed group are not asserted: see K2 in DESIGN.md)".into(),
